@@ -248,6 +248,13 @@ impl Walrus {
             } else {
                 0
             };
+            // A position inside the writer's active block is persisted as (number of sealed
+            // blocks, offset): after a restart the active block is recovered as exactly that
+            // chain entry (or, if it held no entry, the position denotes the start of whatever
+            // block follows). Persisting the block *id* instead (the TAIL_FLAG form, still
+            // understood when read back) breaks when recovery numbers blocks differently than
+            // the allocator did, which it cannot avoid when allocated blocks were left empty.
+            let tail_pos = info.chain.len() as u64;
             // The provisional position (block start) is only written the first time a consumer
             // reaches this tail block, i.e. when the index does not already hold a position
             // inside it: overwriting that on every poll made a restarted consumer re-read
@@ -260,12 +267,12 @@ impl Walrus {
                     .ok()
                     .and_then(|g| {
                         g.get(col_name)
-                            .map(|p| p.cur_block_idx == (active_block.id | TAIL_FLAG))
+                            .map(|p| p.cur_block_idx == tail_pos)
                     })
                     .unwrap_or(false);
                 if !already_in_block && self.should_persist(&mut info, true) {
                     if let Ok(mut idx_guard) = self.read_offset_index.write() {
-                        let _ = idx_guard.set(col_name.to_string(), active_block.id | TAIL_FLAG, 0);
+                        let _ = idx_guard.set(col_name.to_string(), tail_pos, 0);
                     }
                 }
             }
@@ -281,7 +288,7 @@ impl Walrus {
                             info.tail_block_id = active_block.id;
                             info.tail_offset = new_off;
                             maybe_persist = if self.should_persist(&mut info, false) {
-                                Some((active_block.id | TAIL_FLAG, new_off))
+                                Some((tail_pos, new_off))
                             } else {
                                 None
                             };
@@ -1145,7 +1152,7 @@ impl Walrus {
         // 5) Commit progress (optional)
         if entries_parsed > 0 {
             enum PersistTarget {
-                Tail { blk_id: u64, off: u64 },
+                Tail { off: u64 },
                 Sealed { idx: u64, off: u64 },
                 None,
             }
@@ -1179,7 +1186,6 @@ impl Walrus {
                         info.tail_offset = final_tail_offset;
                         if should_persist_disk {
                             target = PersistTarget::Tail {
-                                blk_id: final_tail_block_id,
                                 off: final_tail_offset,
                             };
                         }
@@ -1216,9 +1222,10 @@ impl Walrus {
             // Commit to index
             if checkpoint {
                 match target {
-                    PersistTarget::Tail { blk_id, off } => {
+                    PersistTarget::Tail { off } => {
+                        // (number of sealed blocks, offset): see read_next
                         if let Ok(mut idx_guard) = self.read_offset_index.write() {
-                            let _ = idx_guard.set(col_name.to_string(), blk_id | TAIL_FLAG, off);
+                            let _ = idx_guard.set(col_name.to_string(), chain_len_at_plan as u64, off);
                         }
                     }
                     PersistTarget::Sealed { idx, off } => {
